@@ -132,9 +132,17 @@ def main(tier=None, replay=None):
     orbs = [("halo", dict(amplitude_z=0.2, zenith="southern"), 1), ("lyapunov", dict(amplitude_x=4e-3), 1)]
     if not ck.quick:
         orbs += [("halo", dict(amplitude_z=0.1, zenith="northern"), 2), ("lyapunov", dict(amplitude_x=4e-3), 2)]
+    if not ck.quick:
+        # "every periodic orbit the library can correct": a vertical orbit seeded from the centre manifold (examples/periodic_orbits.py)
+        try:
+            cmv = em.get_libration_point(1).get_center_manifold(degree=4)
+            cmv.compute()
+            orbs.append(("vertical", dict(initial_state=[float(v) for v in cmv.to_synodic([0.0, 0.0], 0.6, "q3")]), 1))
+        except Exception as ex:  # noqa
+            ck.notes.append(f"vertical seed from the centre manifold failed: {ex!r}")
     for fam, kw, li in orbs:
         L = em.get_libration_point(li)
-        orbit = L.create_orbit(fam, **kw)
+        orbit = L.create_orbit(fam, **{k: (np.asarray(v, dtype=float) if k == "initial_state" else v) for k, v in kw.items()})
         orbit.correct()
         M = np.asarray(orbit.monodromy)
         x0 = np.asarray(orbit.initial_state, dtype=float)
